@@ -134,7 +134,28 @@ func nativeAdd(path string, kind int, content []byte, mode fs.FileMode, mtime ti
 
 // ---------------------------------------------------------------- lookup
 
+// abs resolves a relative name against the model's working directory.
+func abs(name string) string {
+	if name != "" && !filepath.IsAbs(name) && Cwd != "" {
+		return filepath.Join(Cwd, name)
+	}
+	return name
+}
+
+// Chdir makes path the working directory (natively the process really changes
+// directory until the end of the replay).
+func Chdir(path string) {
+	if !zz.Symbolic() {
+		prev, _ := os.Getwd()
+		os.Chdir(filepath.Join(nativeRoot(), path))
+		zz.AtReplayEnd(func() { os.Chdir(prev) })
+		return
+	}
+	Cwd = path
+}
+
 func find(name string) *Node {
+	name = abs(name)
 	c := filepath.Clean(name)
 	for _, n := range Nodes {
 		if n.Absent {
@@ -455,7 +476,7 @@ func OsGetwd() (string, error) { return Cwd, nil }
 
 func children(dir string) []*Node {
 	var out []*Node
-	d := filepath.Clean(dir)
+	d := filepath.Clean(abs(dir))
 	for _, n := range Nodes {
 		if n.Absent {
 			continue
